@@ -45,6 +45,7 @@ TABLE = [
     ("transform_for_each", "node.iteration", "iterating over None raises TypeError"),
     ("transform_for_range", "node.start", "range(None, n) raises TypeError"),
     ("transform_for_range", "node.end", "range(0, None) raises TypeError"),
+    ("transform_function_call", "<args>", "len(None) raises TypeError; the built-in and the verification functions dereference their arguments"),
 ]
 
 
@@ -96,10 +97,16 @@ def _operand_var(m, operand: str) -> Optional[Tuple[str, ast.AST]]:
     for n in walk_function_body(m.node):
         if isinstance(n, ast.Assign) and isinstance(n.value, ast.Call) and dotted_of(n.value.func) == "self.transform" and isinstance(n.targets[0], ast.Name) and n.value.args:
             arg = n.value.args[0]
-            if operand == "<values>":
-                # loop variable over node.values
+            if operand in ("<values>", "<args>"):
+                # loop variable over node.values / node.args
+                want = "node.values" if operand == "<values>" else "node.args"
                 for loop in walk_function_body(m.node):
-                    if isinstance(loop, ast.For) and dotted_of(loop.iter) == "node.values" and isinstance(loop.target, ast.Name) and isinstance(arg, ast.Name) and arg.id == loop.target.id:
+                    if not isinstance(loop, ast.For):
+                        continue
+                    it, tg = loop.iter, loop.target
+                    if isinstance(it, ast.Call) and dotted_of(it.func) == "enumerate" and it.args and isinstance(tg, ast.Tuple) and len(tg.elts) == 2:
+                        it, tg = it.args[0], tg.elts[1]
+                    if dotted_of(it) == want and isinstance(tg, ast.Name) and isinstance(arg, ast.Name) and arg.id == tg.id:
                         return n.targets[0].id, n
             elif dotted_of(arg) == operand:
                 return n.targets[0].id, n
@@ -127,12 +134,15 @@ def _check_nonnull(ctx, m, operand: str, reason: str) -> None:
     art = artefacts(ctx.ty, m)
     cfg = art.cfg
     first_in_branch = good.body[0]
+    # the statements of the error branch that record the error (the branch may also hold a nested test that exempts
+    # some cases, e.g. arguments declared Optional)
+    append_stmts = [x for x in ast.walk(ast.Module(body=good.body, type_ignores=[])) if isinstance(x, ast.Expr) and isinstance(x.value, ast.Call) and dotted_of(x.value.func) == "self.errors.append"]
 
     def transfer(node, st):
         tainted, flags = st
         flags = dict(flags)
         s = node.stmt
-        if node.kind == "stmt" and s is not None and any(x is s for x in ast.walk(ast.Module(body=good.body, type_ignores=[]))):
+        if node.kind == "stmt" and s is not None and any(x is s for x in append_stmts):
             tainted = True
         if node.kind == "stmt" and isinstance(s, ast.Assign) and isinstance(s.targets[0], ast.Name):
             name = s.targets[0].id
